@@ -3,11 +3,12 @@ Ops1.tla with Disposes = TRUE: the dispose instant ranges over every instant of 
 subscription, between notifications, after the terminal); model invariants Silent and Released."""
 from harness import core
 from props import ops1_common as oc
+from props import lifecycle_common as lc
 from props import ops1_ext as ox
 
 META = {
-    "technique": "dispose instant enumerated by TLC at every point of every Ops1.tla scenario (model invariants Silent, Released), replayed with hot, cold and Subject drivers; late-callback detection",
-    "level": "For every element-wise and aggregate operator scenario TLC places the subscriber's dispose() after every instant 0..len+1 and exports the expected truncated stream and the instant at which the source subscription must be closed (the dispose instant, unless the pipeline ended earlier); the model itself satisfies Silent (nothing emitted after the dispose instant) and Released. The real run must show exactly that stream, the source's subscription log closed at that very instant, and no invocation of any user function of the pipeline after dispose() returned. Dispose from inside the subscriber's own callback, multi-source, time-based and window/group pipelines are covered by their own modules' dispose dimension and by the trace monitor of C02.",
+    "technique": "dispose instant enumerated by TLC at every point of every Ops1.tla scenario (model invariants Silent, Released), replayed with hot, cold and Subject drivers; Lifecycle.tla monitor (no sink event / user callback / open source after dispose) validating traces of catalogue pipelines disposed at seeded instants",
+    "level": "For every element-wise and aggregate operator scenario TLC places the subscriber's dispose() after every instant 0..len+1 and exports the expected truncated stream and the instant at which the source subscription must be closed (the dispose instant, unless the pipeline ended earlier); the model itself satisfies Silent (nothing emitted after the dispose instant) and Released. The real run must show exactly that stream, the source's subscription log closed at that very instant, and no invocation of any user function of the pipeline after dispose() returned. For all other operators (about 125, alone and composed to depth 2-3, including window/group pipelines whose windows stay subscribed) recorded executions with a dispose at a seeded instant are validated by TLC against the Lifecycle.tla monitor: no notification and no user function after dispose() returned, and no source subscription open once time passes, except while a window/group subscriber is still live.",
     "note": "TLC 1.8; dispose is scheduled strictly between two event instants of the time map (ties between dispose and a same-instant notification are exercised by the time-based modules)",
     "ref": "DESIGN.md 6 C03",
 }
@@ -34,7 +35,13 @@ def run(tier):
                "instant 0..len+1; hot, cold and Subject drivers; non-trivial = the dispose cuts the stream short of what the "
                "undisposed run would deliver (the pipeline had not terminated by itself)")
     ox.replay_groups(ck, disposing, variants)
-    ck.nontrivial = sum(1 for g in disposing if g[1][0]["unsub"] == g[0]["dsp"])
+    # operator-agnostic part: Lifecycle.tla monitor over catalogue pipelines with a dispose at a seeded instant
+    per_op, nd = (6, 800) if tier == "quick" else (50, 10000)
+    st = {"single": lc.validate(ck, "C03", lc.specs_single(ck.seed + 31, per_op, dispose=True), "catalogue operators alone, dispose"),
+          "depth2": lc.validate(ck, "C03", lc.specs_depth(ck.seed + 32, nd, 2, dispose=True), "depth 2, dispose"),
+          "depth3": lc.validate(ck, "C03", lc.specs_depth(ck.seed + 33, nd, 3, dispose=True), "depth 3, dispose")}
+    ck.note("pipeline_runs", st)
+    ck.nontrivial = sum(1 for g in disposing if g[1][0]["unsub"] == g[0]["dsp"]) + sum(v["validated"] for v in st.values())
     ck.note("scenarios", len(disposing))
     ck.note("operators", sorted({g[0]["op"] for g in disposing}))
     for g in disposing[:: max(1, len(disposing) // 5)][:5]:
@@ -43,4 +50,7 @@ def run(tier):
     return ck.finish()
 
 
-replay = ox.generic_replay
+def replay(rec):
+    if rec.get("engine") == "lifecycle":
+        return lc.replay(rec)
+    return ox.generic_replay(rec)
